@@ -59,6 +59,7 @@ type realCfg struct {
 	Intruder   bool
 	CloseOrder int  // 0 client,server,listener; 1 listener first; 2 server first; 3 all at once
 	CloseEarly bool // close while the transfer is still running
+	Storm      bool // new peers keep contacting the listener while everything is being closed
 }
 
 type realFailure struct {
@@ -507,6 +508,33 @@ func runRealCase(cfg *realCfg, budget time.Duration) (res realResult) {
 
 	// close everything, in the drawn order
 	<-srvReady
+	stormDone := make(chan struct{})
+	if cfg.Storm {
+		// first packets of new conversations from a handful of addresses: the
+		// listener is setting sessions up while it is being closed
+		var socks []*net.UDPConn
+		for i := 0; i < 8; i++ {
+			if x, err := realListenUDP(cfg.V6); err == nil {
+				socks = append(socks, x)
+				mine = append(mine, x)
+			}
+		}
+		go func() {
+			defer close(stormDone)
+			var nonce [16]byte
+			for round := 0; round < 40; round++ {
+				for i, x := range socks {
+					seg := wire.Segment{Conv: 0x70000000 + uint32(round*16+i), Cmd: 81, Wnd: 128, Sn: 0, Data: []byte{1, 2, 3}}.Append(nil)
+					rand.Read(nonce[:])
+					x.WriteToUDP(crypto.Seal(nonce[:], seg), srvAddr)
+				}
+				time.Sleep(time.Duration(realMix(cfg.Seed+uint64(round))%300) * time.Microsecond)
+			}
+		}()
+		time.Sleep(time.Duration(realMix(cfg.Seed^77)%3000) * time.Microsecond)
+	} else {
+		close(stormDone)
+	}
 	closers := []func(){func() { cli.Close() }, func() {
 		if srv != nil {
 			srv.Close()
@@ -531,6 +559,7 @@ func runRealCase(cfg *realCfg, budget time.Duration) (res realResult) {
 		}
 	}
 	<-intruderDone
+	<-stormDone
 	for _, c := range extra {
 		c.Close()
 	}
@@ -622,14 +651,14 @@ func describeReal(c *realCfg) map[string]any {
 		return w
 	}
 	return map[string]any{"cfg": fmt.Sprintf("%+v", struct {
-		Cipher                          string
-		FEC                             [2]int
-		Stream, V6, Owned               bool
-		AckNoDelay, WriteDelay          bool
+		Cipher                           string
+		FEC                              [2]int
+		Stream, V6, Owned                bool
+		AckNoDelay, WriteDelay           bool
 		LossPm, DupPm, DelayPm, MaxDelay int
-		CloseOrder                      int
-		CloseEarly, Intruder            bool
-	}{d.Cipher, d.FEC, d.Stream, d.V6, d.Owned, d.AckNoDelay, d.WriteDelay, d.LossPm, d.DupPm, d.DelayPm, d.MaxDelayMs, d.CloseOrder, d.CloseEarly, d.Intruder}),
+		CloseOrder                       int
+		CloseEarly, Intruder, Storm      bool
+	}{d.Cipher, d.FEC, d.Stream, d.V6, d.Owned, d.AckNoDelay, d.WriteDelay, d.LossPm, d.DupPm, d.DelayPm, d.MaxDelayMs, d.CloseOrder, d.CloseEarly, d.Intruder, d.Storm}),
 		"writes0": trim(c.Writes[0]), "writes1": trim(c.Writes[1]), "readbufs": c.ReadBuf}
 }
 
@@ -650,6 +679,7 @@ func realClasses(c *realCfg, r *realResult) []string {
 	add(r.Completed, "completed")
 	add(!r.Completed && !c.CloseEarly, "budget_used_up_inconclusive")
 	add(c.CloseEarly, "closed_mid_transfer")
+	add(c.Storm, "new_peers_during_close")
 	add(r.IntruderSeen > 0, "intruder_datagrams_rejected")
 	return cl
 }
@@ -666,6 +696,7 @@ func realCheck(t *testing.T, kind string, intruder bool, maxBytes int, early boo
 		cfg := drawRealCfg(rt, intruder, maxBytes)
 		if early {
 			cfg.CloseEarly = rapid.Bool().Draw(rt, "closeearly")
+			cfg.Storm = rapid.Bool().Draw(rt, "storm")
 		}
 		res := runRealCase(cfg, 30*time.Second)
 		for _, f := range res.Fails {
